@@ -135,6 +135,10 @@ func (zr zeroReader) Read(b []byte) (int, error) {
 // expandSparse grows the file with zero blocks of 4096
 // A small blocksize is chosen to aid in deduplication
 func (dm *DagModifier) expandSparse(size int64) error {
+	// The DAG is about to change: a reader cached by a previous Read
+	// would keep serving the old one.
+	dm.dropReader()
+
 	r := io.LimitReader(zeroReader{}, size)
 	spl := chunker.NewSizeSplitter(r, 4096)
 	nnode, err := dm.appendData(dm.curNode, spl)
@@ -149,6 +153,16 @@ func (dm *DagModifier) expandSparse(size int64) error {
 	// Without this, writes after sparse expansion would go to the old node.
 	dm.curNode = nnode
 	return nil
+}
+
+// dropReader discards the DagReader cached by a previous Read. It must be
+// called before the DAG in curNode changes, otherwise later reads keep
+// serving the old DAG.
+func (dm *DagModifier) dropReader() {
+	if dm.read != nil {
+		dm.read = nil
+		dm.readCancel()
+	}
 }
 
 // Write continues writing to the dag at the current offset
@@ -750,6 +764,10 @@ func (dm *DagModifier) Truncate(size int64) error {
 	if size > realSize {
 		return dm.expandSparse(size - realSize)
 	}
+
+	// The DAG is about to shrink: drop the reader cached by a previous
+	// Read, it would keep serving the truncated bytes.
+	dm.dropReader()
 
 	nnode, err := dm.dagTruncate(dm.ctx, dm.curNode, uint64(size))
 	if err != nil {
